@@ -357,3 +357,12 @@ pub(crate) use enumerated::verif_hook as verif_hook_enumerated;
 #[cfg(librasn_compiler_verif)]
 #[allow(unused_imports)]
 pub(crate) use sequence::verif_hook as verif_hook_sequence;
+
+#[cfg(librasn_compiler_verif)]
+#[allow(unused_imports)]
+pub(crate) use {
+    bit_string::bit_string_value as verif_bit_string_value,
+    character_string::cstring as verif_cstring, constraint::constraints as verif_constraints,
+    module_header::module_header as verif_module_header,
+    object_identifier::object_identifier_value as verif_object_identifier_value,
+};
